@@ -8,6 +8,7 @@ from diff import *
 import gen
 sets = {"rf": set(), "looporder": set(), "repanic_result": set()}
 unattributed = []
+raw = []
 for tier in ("quick", "thorough"):
     progs = [Prog(n, {"main.go": src}, backends=(("A", ()), ("C", ()))) for n, src in gen.programs(tier).items()]
     results = pmap(lambda p: diff_prog("C04", p, timeout=1800), progs, workers=6)
@@ -28,13 +29,19 @@ for tier in ("quick", "thorough"):
                 if got is None:
                     unattributed.append((key, want, got)); continue
                 ws, gs = want.split(" | ", 1), got.split(" | ", 1)
-                if len(ws) == 2 and len(gs) == 2 and ws[0] == gs[0] and sorted(ws[1].split()) == sorted(gs[1].split()) and re.search(r"loop\d/.*\+.*/plain\+.*loop\d/|loop\d/.*\+.*loop\d/", cid):
-                    sets["looporder"].add(key)
-                elif len(ws) == 2 and len(gs) == 2 and ws[1] == gs[1] and ws[0].startswith("ret:") and gs[0].startswith("ret:") and "repanic" in cid and "recover" in cid:
-                    sets["repanic_result"].add(key)
+                norm = lambda t: re.sub(r"outer-got=-?\d+", "outer-got=N", t)
+                names = lambda t: sorted(re.sub(r"[:=].*", "", x) for x in t.split())
+                raw.append((key, want, got))
+                nloops = len(re.findall(r"loop[12]/", cid)) + (1 if cid.endswith(">retloop") or ">retloop#" in cid else 0)
+                if len(ws) == 2 and len(gs) == 2 and ws[0] == gs[0] and names(ws[1]) == names(gs[1]) and nloops >= 2:
+                    sets["looporder"].add(key)      # same deferred calls, wrong order, two loop-defer groups in the function
+                elif len(ws) == 2 and len(gs) == 2 and norm(ws[1]) == norm(gs[1]) and re.match(r"ret:", ws[0]) and re.match(r"ret:", gs[0]) and "repanic" in cid and "recover" in cid:
+                    sets["repanic_result"].add(key)  # same trace, the named result assigned before the recovered re-panic is lost
                 else:
                     unattributed.append((key, want, got))
     print(tier, {k: len(v) for k, v in sets.items()}, "unattributed", len(unattributed))
+import json
+json.dump(raw, open("/verif/build/c04raw.json", "w"))
 os.makedirs("/verif/known", exist_ok=True)
 for name, s in sets.items():
     with open("/verif/known/C04_%s.txt" % name, "w") as f:
